@@ -248,4 +248,11 @@ def indexGet (hash : K → Int) (eq : K → K → Bool) (t : Table K V) (key : K
 def indexSet (hash : K → Int) (eq : K → K → Bool) (t : Table K V) (key : K) (value : V) : Except Err (Table K V) :=
   insert hash eq t key value
 
+/-- `m[k] op= v` (`+= -= *= /= %=` through the `Index` impl): the map and the key are evaluated once, then
+    `index_set(m, k, op(index_get(m, k), v))`; `f` is `fun x => x op v` -/
+def indexUpdate (hash : K → Int) (eq : K → K → Bool) (t : Table K V) (key : K) (f : V → V) : Except Err (Table K V) :=
+  match indexGet hash eq t key with
+  | .error e => .error e
+  | .ok x => indexSet hash eq t key (f x)
+
 end Abra.Lib.HashMap
